@@ -5,20 +5,20 @@ use crate::{vassert, vassert_kf, vassume, vcell, vcover, vsym};
 fn predicate(id: u8, f: Fl, cx: u16) -> bool {
     match id {
         ID_jmp => true,
-        ID_ja => !f.cf && !f.zf,
-        ID_jae | ID_jnc => !f.cf,
-        ID_jb | ID_jc => f.cf,
-        ID_jbe => f.cf || f.zf,
-        ID_je => f.zf,
-        ID_jne => !f.zf,
-        ID_jg => !f.zf && f.sf == f.of,
-        ID_jge => f.sf == f.of,
-        ID_jl => f.sf != f.of,
-        ID_jle => f.zf || f.sf != f.of,
+        ID_ja | ID_jnbe => !f.cf && !f.zf,
+        ID_jae | ID_jnc | ID_jnb => !f.cf,
+        ID_jb | ID_jc | ID_jnae => f.cf,
+        ID_jbe | ID_jna => f.cf || f.zf,
+        ID_je | ID_jz => f.zf,
+        ID_jne | ID_jnz => !f.zf,
+        ID_jg | ID_jnle => !f.zf && f.sf == f.of,
+        ID_jge | ID_jnl => f.sf == f.of,
+        ID_jl | ID_jnge => f.sf != f.of,
+        ID_jle | ID_jng => f.zf || f.sf != f.of,
         ID_jno => !f.of,
         ID_jo => f.of,
-        ID_jnp => !f.pf,
-        ID_jp => f.pf,
+        ID_jnp | ID_jpo => !f.pf,
+        ID_jp | ID_jpe => f.pf,
         ID_jns => !f.sf,
         ID_js => f.sf,
         ID_jcxz => cx == 0,
@@ -41,15 +41,17 @@ pub fn c06_conditions() {
     let id = NT_jumps_condition_ID[w_j as usize];
     let f = fl_of(pre.flag);
     let mut er = pre;
-    let is_loop = id == ID_loop || id == ID_loope || id == ID_loopne;
+    let is_loope = id == ID_loope || id == ID_loopz;
+    let is_loopne = id == ID_loopne || id == ID_loopnz;
+    let is_loop = id == ID_loop || is_loope || is_loopne;
     let exp = if is_loop {
         er.cx = pre.cx.wrapping_sub(1);
-        er.cx != 0 && (id == ID_loop || (id == ID_loope && f.zf) || (id == ID_loopne && !f.zf))
+        er.cx != 0 && (id == ID_loop || (is_loope && f.zf) || (is_loopne && !f.zf))
     } else {
         predicate(id, f, pre.cx)
     };
     // Known finding: JLE/JNG is taken only when ZF=1 AND SF!=OF (pinned by test_jg_jle)
-    let jle_region = id == ID_jle && (f.zf != (f.sf != f.of));
+    let jle_region = (id == ID_jle || id == ID_jng) && (f.zf != (f.sf != f.of));
     vassert_kf!("C06.condition.taken_iff_predicate", take == exp, KF_C06_jle, jle_region);
     vassert!("C06.condition.every_mnemonic_known", id != 255);
     vassert!("C06.condition.registers_and_flags", regs(&vm) == er);
